@@ -193,6 +193,23 @@ theorem C16_load_reads_programs (fix : Bool) (fs : Str → Option Str) (d : Nat)
     readTreeG fix fs d text = expand (fun n => (fs n).map (commandsG fix)) d (commandsG fix text) :=
   treeLoop_eq_expand fix fs d [] (fileLines text)
 
+/-- **every dispatched command has a verb**: the read loop skips empty and comment-only lines, so `tokens[0]` in
+`Builder.build` and `Builder.dispatch` cannot raise IndexError (used by the exception-flow table of C14) -/
+theorem C16_commands_nonempty (fix : Bool) (text : Str) : ∀ c ∈ commandsG fix text, c ≠ [] :=
+  mainLoop_nonempty fix [] (fileLines text)
+
+/-- **only the blank separates tokens**: `REO_Chunks` is `#.*|[^ "']+|"[^"]*"|'[^']*'`, so any other character — a tab,
+a vertical tab, a form feed, a no-break space — between two words is part of ONE token: a text without blank and
+quote that does not start with `#` is a single chunk.  (White space at the two ends of a line is removed by `strip`
+before; that is the indentation freedom of `Layout`.  Layouts therefore put blanks between tokens.) -/
+theorem C16_only_blanks_separate (c : Char) (cs : Str) (hc : isPlain c = true) (hh : c ≠ '#')
+    (h : ∀ x ∈ cs, isPlain x = true) : chunks (c :: cs) = [c :: cs] := chunks_plain c cs hc hh h
+
+example : isPlain '\t' = true ∧ isPlain '\u000b' = true ∧ isPlain '\u00a0' = true ∧ isPlain ' ' = false := by decide
+
+/-- a tab between two words does not separate them; a tab at the ends of the line is indentation -/
+example : commands "\tdo\tx  to\u000by\t\n".toList = [["do\tx".toList, "to\u000by".toList]] := by decide +kernel
+
 /-- the text of a laid-out file, with or without the newline at its very end -/
 def Layout.text (L : Layout) (eol : Bool) : Str := if eol then L.render else L.renderNoEol
 
